@@ -474,12 +474,13 @@ func c15BaseUnits(ctx *core.Ctx) []core.Unit {
 				}
 			}
 		}
-		lens := []int{5, 8, 16, 17, 255, 256, 257, 300}
+		lens := []int{5, 8, 16, 17, 255, 256, 257, 300, 511, 512, 513, 1023, 1024, 1025, 2049, 4097}
 		if ctx.Thorough() {
 			lens = nil
 			for L := 5; L <= 300; L++ {
 				lens = append(lens, L)
 			}
+			lens = append(lens, 511, 512, 513, 1000, 1023, 1024, 1025, 2048, 2049, 4096, 4097, 10000)
 		}
 		for _, L := range lens {
 			base := make([]*big.Int, L)
@@ -488,7 +489,7 @@ func c15BaseUnits(ctx *core.Ctx) []core.Unit {
 			}
 			check(base)
 			for z := 0; z < L; z++ {
-				if !ctx.Thorough() && L > 20 && z%17 != 0 && z != L-1 {
+				if (!ctx.Thorough() || L > 300) && L > 20 && z%17 != 0 && z != L-1 && z != L-2 && z != L/2 {
 					continue
 				}
 				vals := append([]*big.Int(nil), base...)
